@@ -488,6 +488,7 @@ class Respondent(httping.Parsent):
                 (self.method == "HEAD")):
             self.length = 0
 
+        self.evented = False  # decided per response, not inherited from the previous one
         contentType = self.headers.get("content-type")
         if contentType:
             if u';' in contentType: # should also parse out charset for decoding
